@@ -148,7 +148,129 @@ def check(F, run, b, rule, path, dim=2, names=("jac_inv", "shift", "func_eval", 
     return _check_roles(F, run, b, rule, path, dim, names, st, loop)
 
 
+def check_zero_step(F, run, b, rule, path, dim, names, st, loop):
+    """The Sherman–Morrison denominator sᵀ·H·y vanishes when the last step s is exactly zero (a start exactly on the root: f = 0, so the first step is
+    −H·0 = 0, then y = 0 as well and the update is 0/0 — the inverse Jacobian becomes NaN and no later test can succeed).  Every division of the
+    loop body whose denominator vanishes with the step must be unreachable with a zero step: each write to the step local, before the loop and inside
+    it, is followed — before the division can run again — by a test of the step's magnitude that returns, or the division is guarded against a
+    zero denominator."""
+    from bsa import cfg, logic
+    from rules.c08 import magnitude_args
+    from bsa.hir import place, pp
+    nH, ns, nf, nx = names
+    BroydenInterp.DIM = d = dim
+    H = sp.ImmutableMatrix(d, d, [sp.Symbol("H%d%d" % (i, j), real=True) for i in range(d) for j in range(d)])
+    sv = sp.ImmutableMatrix(d, 1, [sp.Symbol("s%d" % i, real=True) for i in range(d)])
+    fo = sp.ImmutableMatrix(d, 1, [sp.Symbol("fold%d" % i, real=True) for i in range(d)])
+    x = sp.ImmutableMatrix(d, 1, [sp.Symbol("x%d" % i, real=True) for i in range(d)])
+    vals = dict(c07.constant_locals(F, b))
+    vals.update({nH: H, ns: sv, nf: fo, nx: x})
+    divs = []
+
+    class Log(BroydenInterp):
+        def ev_Bin(self, n):
+            v = BroydenInterp.ev_Bin(self, n)
+            if n.get("op") == "Div":
+                try:
+                    den = self.ev(n["r"])
+                    if isinstance(den, sp.Basic) and not isinstance(den, sp.MatrixBase):
+                        divs.append((n, den))
+                except Exception:
+                    pass
+            return v
+    try:
+        paths.explore(F, b, setup=c07.preset_all(b, vals), node=loop["body"], interp_cls=Log, limit=16)
+    except sym.Unsupported as u:
+        run.broken(rule, path, "zero-step", F.loc(b, loop), "cannot evaluate one iteration: %s" % u)
+        return
+    zero = {sym_: 0 for sym_ in sv}
+    risky = []
+    for n, den in divs:
+        try:
+            if sp.simplify(den.subs(zero)) == 0 and not any(n is r_ for r_ in risky):
+                risky.append(n)
+        except Exception:
+            pass
+    run.floor(rule, path, "divisions whose denominator vanishes with the step", len(risky), 1, F.loc(b, loop))
+    if not risky:
+        return
+
+    def is_step_test(e):
+        e = peel(e.get("e", e)) if e.get("k") in ("ExprS", "Semi") else peel(e)
+        if e.get("k") != "If" or cfg.div(e["t"], ("Ret",)) != cfg.TRUE:
+            return False
+        it = RInterp(F, b, lambda c: False)
+        c07.preset_all(b, {})(it)
+        try:
+            c = it.ev(e["c"])
+        except Exception:
+            return False
+        if not isinstance(c, (sp.LessThan, sp.StrictLessThan, sp.GreaterThan, sp.StrictGreaterThan)):
+            return False
+        small = c.lhs if isinstance(c, (sp.LessThan, sp.StrictLessThan)) else c.rhs
+        return any(a == sym.S(ns) for a in magnitude_args(small))
+
+    def writes_step(stmt):
+        for y in walk(stmt, into_closures=False):
+            if y.get("k") in ("Assign", "AssignOp") and peel(y["l"]).get("k") == "Local" and peel(y["l"])["name"] == ns:
+                return True
+            if y.get("k") == "LetS" and y["pat"].get("k") == "Bind" and y["pat"].get("name") == ns and "init" in y:
+                return True
+        return False
+
+    def tested_after_writes(seq, stop_at=None):
+        """in the statement list `seq` (up to the statement containing `stop_at`, if given, else to the end): after the last write of the step, a test"""
+        last_w, test_after = None, False
+        for st_ in seq:
+            if stop_at is not None and any(y is stop_at for y in walk(st_)):
+                break
+            if writes_step(st_):
+                last_w, test_after = st_, False
+            elif last_w is not None and is_step_test(st_):
+                test_after = True
+        return last_w, test_after
+    top = list(b["body"]["stmts"])
+    prefix = []
+    for st_ in top:
+        if any(y is loop for y in walk(st_)):
+            break
+        prefix.append(st_)
+    body_seq = list(loop["body"]["stmts"]) + ([loop["body"]["expr"]] if loop["body"].get("expr") is not None else [])
+    for dnode in risky:
+        # (a) guarded against a zero denominator
+        g = cfg.guards_of(b["body"], dnode)
+        git = RInterp(F, b, lambda c: False)
+        c07.preset_all(b, {})(git)
+        lits = []
+        for l in cfg.conj_lits(g):
+            try:
+                cv = git.ev(l[1])
+                lits.append(cv if l[2] else sp.Not(cv))
+            except Exception:
+                pass
+        guarded = False
+        try:
+            dsym = git.ev(dnode["r"])
+            guarded = bool(lits) and isinstance(dsym, sp.Basic) and logic.unsat(sp.And(sp.And(*lits), sp.Eq(dsym, 0)))
+        except Exception:
+            pass
+        # (b) a zero step cannot reach it: tested after the write in front of the loop (or at the head of the body, before the division), and after the write in the body
+        w0, t0 = tested_after_writes(prefix)
+        wh, th = tested_after_writes(body_seq, stop_at=dnode)          # a test at the head of the body, before the division, also covers the first pass
+        head_test = any(is_step_test(st_) for st_ in body_seq[:next((i for i, st_ in enumerate(body_seq) if any(y is dnode for y in walk(st_))), 0)])
+        w1, t1 = tested_after_writes(body_seq)
+        first_ok = (w0 is not None and t0) or head_test
+        later_ok = (w1 is None) or t1 or head_test
+        run.check(guarded or (first_ok and later_ok), rule, path, "zero-step-division:" + pp(peel(dnode["r"]))[:30], F.loc(b, dnode),
+                  "`%s` divides by a quantity that is exactly 0 when the last step is 0 (a start exactly on the root: f = 0, first step −H·0 = 0, then 0/0 poisons the inverse Jacobian "
+                  "with NaN and the call ends in `maximum iterations exceeded`), and %s" % (pp(dnode)[:70],
+                  "the first step, taken in front of the loop, is not tested against the tolerance before the update runs" if not first_ok else
+                  "the step written in the loop body is not tested before the next update"),
+                  sample="zero step cannot reach %s" % pp(dnode)[:50])
+
+
 def _check_roles(F, run, b, rule, path, dim, names, st, loop):
+    check_zero_step(F, run, b, rule, path, dim, names, st, loop) if not isinstance(run, _Collect) else None
     nH, ns, nf, nx = names
     BroydenInterp.DIM = d = dim
     H = sp.ImmutableMatrix(d, d, [sp.Symbol("H%d%d" % (i, j), real=True) for i in range(d) for j in range(d)])
